@@ -397,7 +397,17 @@ impl<'tcx> Cx<'tcx> {
                 ("len", match n.try_to_target_usize(tcx) { Some(v) => J::Num(v as i128), None => J::Null }),
                 ("of", self.abi_ty(*inner)),
             ]),
-            ty::FnPtr(..) => J::Obj(vec![("k", J::Str("fnptr".into())), ("name", J::Str(self.ty(t)))]),
+            ty::FnPtr(..) => {
+                let sig = t.fn_sig(tcx).skip_binder();
+                let ins: Vec<J> = sig.inputs().iter().map(|t| self.abi_ty(*t)).collect();
+                J::Obj(vec![
+                    ("k", J::Str("fnptr".into())),
+                    ("name", J::Str(self.ty(t))),
+                    ("inputs", J::Arr(ins)),
+                    ("output", self.abi_ty(sig.output())),
+                    ("c_variadic", J::Bool(sig.c_variadic())),
+                ])
+            }
             ty::Foreign(d) => J::Obj(vec![("k", J::Str("foreign".into())), ("path", J::Str(self.path(*d)))]),
             _ => J::Obj(vec![("k", J::Str("other".into())), ("name", J::Str(self.ty(t)))]),
         }
